@@ -669,6 +669,14 @@ func (f *Func) SingleDef(obj types.Object) ast.Expr {
 				}
 			}
 		}
+		// x, ok := y.(T): x denotes y
+		if len(s.Lhs) == 2 && len(s.Rhs) == 1 {
+			if ta, ok := ast.Unparen(s.Rhs[0]).(*ast.TypeAssertExpr); ok && ta.Type != nil {
+				if id, ok := ast.Unparen(s.Lhs[0]).(*ast.Ident); ok && f.Info().ObjectOf(id) == obj {
+					return ta
+				}
+			}
+		}
 	case *ast.ValueSpec:
 		if len(s.Names) == len(s.Values) {
 			for i, id := range s.Names {
